@@ -66,6 +66,12 @@ def gen(rng, tier, index):
     if policy == "pct":
         sched["k"] = rng.choice([1, 2, 3])
         sched["horizon"] = rng.choice([150, 400, 1200])
+        if scenario != "F" and rng.random() < 0.6:
+            # the change points are counted from the moment producers and teardown thread are released (not from
+            # the start of the run, whose connect phase and idle poll loops would swallow most of them), so that
+            # they fall into the line events in which pump, reader, producers and the tearing-down thread overlap
+            sched["arm"] = True
+            sched["horizon"] = rng.choice([30, 80, 200, 500])
     else:
         sched["p"] = rng.choice([0.01, 0.03, 0.08, 0.2])
     events = EVENTS_TCP if flavour == "tcp" else EVENTS_SERIAL
@@ -149,6 +155,7 @@ def run(case):
                         sim.sleep(1.5)
 
                 world.device.write_hook = stall
+            sim.pct_arm()
             for pid in range(cfg["producers"]):
                 sim.spawn(producer, pid, role="controller")
             if cfg["scenario"] == "A":
